@@ -1,5 +1,6 @@
 import Capella.Driver.Util
 import Capella.Model.Decl
+import Capella.Gen.DeclMeta
 /-!
 Protocol driver for the `decl.apply` machine.
 
@@ -8,7 +9,7 @@ Protocol driver for the `decl.apply` machine.
 
 value encodings: rval `{"s":str}|{"o":id}`; atom `{"s":str}|{"p":promise}|{"u":id}|{"o":id}`;
 val = atom | `{"f":{"ty":str|null,"keys":[[k,atom]…]}}`;
-item `{"ref":val}` | `{"nid","pid","ty","scal":[[k,val]…],"kids":[[k,[item…]]…]}`;
+item `{"ref":val}` | `{"str":s,"nid"}` | `{"nid","pid","ty","scal":[[k,val]…],"kids":[[k,[item…]]…]}`;
 setval `{"v":val}|{"l":[item…]}`; syncobj `{"nid","nid2","ty","keys","pid","set","ext","sync"}`;
 instr `{"parent":val,"create","ext","set","sync","del"}` (all optional but parent).
 -/
@@ -57,9 +58,13 @@ def val (j : Json) : Except String Val :=
   | .error _ => do pure (.atom (← atom j))
 
 partial def item (j : Json) : Except String Item :=
-  match j.getObjVal? "ref" with
-  | .ok v => do pure (.ref (← val v))
-  | .error _ => do
+  match j.getObjVal? "ref", j.getObjVal? "str" with
+  | .ok v, _ => do pure (.ref (← val v))
+  | _, .ok v => do
+    let nid ← j.getObjValAs? Nat "nid"
+    let s ← v.getStr?
+    pure (.str nid s.toList)
+  | _, _ => do
     let nid ← j.getObjValAs? Nat "nid"
     let pid ← optStr j "pid"
     let ty ← optStr j "ty"
@@ -140,17 +145,26 @@ def errOut : Err → Json
   | .outOfFuel => Json.mkObj [("error", "outOfFuel")]
 
 /-- number of transitions of the run (for the evidence: how far below the proved bound) -/
-def countSteps (dflt : List (Str × Str)) : Nat → Nat → State → Nat
+def countSteps (mm : MM) : Nat → Nat → State → Nat
   | 0, n, _ => n
   | f + 1, n, s =>
-    match step dflt s with
-    | .ok (some s') => countSteps dflt f (n + 1) s'
+    match step mm s with
+    | .ok (some s') => countSteps mm f (n + 1) s'
     | _ => n
+
+/-- the metamodel of a request: `"mm":"gen"` = the table generated from the live classes
+(`Capella/Gen/DeclMeta.lean`), else the permissive one over `"dflt":[[attr,cls]…]` -/
+def mmOf (j : Json) : Except String MM := do
+  match j.getObjVal? "mm" with
+  | .ok (.str "gen") => pure Capella.Gen.DeclMeta.mm
+  | _ =>
+    let dflt ← pairs (fun v => do let s ← v.getStr?; pure s.toList) (← arrOf j "dflt")
+    pure (MM.free dflt)
 
 def handle (op : String) (j : Json) : Except String Json := do
   match op with
   | "apply" =>
-    let dflt ← pairs (fun v => do let s ← v.getStr?; pure s.toList) (← arrOf j "dflt")
+    let dflt ← mmOf j
     let g ← graphIn (← j.getObjVal? "graph")
     let doc ← (← arrOf j "doc").mapM instr
     let s0 := init g doc
@@ -165,7 +179,7 @@ def handle (op : String) (j : Json) : Except String Json := do
         ("bound", Json.num bound)])
   | "apply2" =>
     -- the same document twice (second copy with its own creation ids): C13 idempotence
-    let dflt ← pairs (fun v => do let s ← v.getStr?; pure s.toList) (← arrOf j "dflt")
+    let dflt ← mmOf j
     let g ← graphIn (← j.getObjVal? "graph")
     let doc ← (← arrOf j "doc").mapM instr
     let doc2 ← (← arrOf j "doc2").mapM instr
